@@ -20,15 +20,37 @@ fn same(a: &Out<Value>, b: &Out<Value>) -> bool {
     }
 }
 
+thread_local! {
+    static CONTROL_AFTER: std::cell::RefCell<std::collections::HashMap<String, u32>> = std::cell::RefCell::new(Default::default());
+}
+
+/// `both` on an adversarial triple, then (for the first 300 rejections per space and thread) `both` on the
+/// honest triple it was derived from: after a rejection the two formats must still agree on accepting it.
+pub fn both_then_honest(parts: &Parts, honest: &Parts, key: &DecodingKey, aud: Option<&str>, nonce: Option<&str>, space: &str, label: &str, l: &mut Local) {
+    let rejected = both(parts, key, aud, nonce, space, label, l);
+    if rejected {
+        let n = CONTROL_AFTER.with(|m| {
+            let mut m = m.borrow_mut();
+            let c = m.entry(space.to_string()).or_insert(0u32);
+            *c += 1;
+            *c
+        });
+        if n <= 300 {
+            both(honest, key, aud, nonce, &format!("{space}/honest_after_rejection"), label, l);
+        }
+    }
+}
+
 /// Verify the same (jwt, disclosures, kb) in compact form and in every JSON rendering; all must agree.
-pub fn both(parts: &Parts, key: &DecodingKey, aud: Option<&str>, nonce: Option<&str>, space: &str, label: &str, l: &mut Local) {
+/// Returns true when every rendering was rejected.
+pub fn both(parts: &Parts, key: &DecodingKey, aud: Option<&str>, nonce: Option<&str>, space: &str, label: &str, l: &mut Local) -> bool {
     l.evals += 1;
     let compact = parts.to_compact();
     let oc = drive::verify(&compact, key.clone(), aud, nonce, Fmt::Compact);
     // the compact text must mean these parts (a '~' inside a part would reframe it): skip otherwise
     if codec::parse_compact(&compact).as_ref() != Some(&normalize(parts)) {
         l.outcome("not_expressible_in_compact_skipped");
-        return;
+        return false;
     }
     let mut variants = vec![("json", parts.to_json_styled(0, false)), ("json+unknown_members", parts.to_json_styled(0, true))];
     if parts.kb.is_none() {
@@ -51,6 +73,7 @@ pub fn both(parts: &Parts, key: &DecodingKey, aud: Option<&str>, nonce: Option<&
     if class == "both_err" {
         l.nontrivial += 1;
     }
+    class == "both_err"
 }
 fn normalize(p: &Parts) -> Parts {
     // in compact form "no kb" and "empty kb" are the same text
@@ -215,7 +238,7 @@ fn tampered(rep: &Report) {
         for (what, jwt) in jwts {
             let mut parts = b.parts.clone();
             parts.jwt = jwt;
-            both(&parts, &key, aud, nonce, "tampered_jwt", &what, l);
+            both_then_honest(&parts, &b.parts, &key, aud, nonce, "tampered_jwt", &what, l);
             both(&parts, &keys::issuer_dec(b.cfg.alg, 1), aud, nonce, "tampered_jwt_other_key", &what, l);
         }
     });
@@ -314,7 +337,9 @@ fn ill_formed(rep: &Report) {
         let (bi, devs) = &items[i];
         let b = sdbuild::build(&bases[*bi].1, devs);
         let jwt = tokens::sign_payload(&b.payload, Alg::HS256, 0);
-        both(&Parts { jwt, disclosures: b.disclosures, kb: None }, &hs_key(), None, None, "ill_formed_signed", &format!("{}:{:?}", bases[*bi].0, devs), l);
+        let b0 = sdbuild::build(&bases[*bi].1, &[]);
+        let honest = Parts { jwt: tokens::sign_payload(&b0.payload, Alg::HS256, 0), disclosures: b0.disclosures, kb: None };
+        both_then_honest(&Parts { jwt, disclosures: b.disclosures, kb: None }, &honest, &hs_key(), None, None, "ill_formed_signed", &format!("{}:{:?}", bases[*bi].0, devs), l);
     });
     rep.scope_done(json!({"scope": format!("ill-formed signed structures: the C08 space ({})", if rep.quick() { "single deviations" } else { "single deviations and pairs" }), "structures": items.len()}));
 }
